@@ -80,6 +80,10 @@ def detection_table():
             origin = 'seeded (property text only)' if name.startswith('seeded/') else 'written with the engine'
             if not r.get('applied', True):
                 rows.append('| %s | `%s` | %s | does not apply to the current tree | — |' % (pid, name, origin)); continue
+            if 'EQUIVALENT' in name:
+                # a harmless rewrite kept on purpose: the right outcome is silence
+                rows.append('| %s | `%s` | %s (behaviour-preserving rewrite) | %s | — |' % (pid, name, origin, '**false alarm**' if r.get('caught') else 'not reported (correct)'))
+                continue
             tot += 1
             caught += 1 if r.get('caught') else 0
             how = ', '.join(r.get('kinds', [])) or '—'
